@@ -45,6 +45,7 @@ class Layout:
         if canonical or rng is None:
             self.nl, self.ind, self.sp, self.blank, self.oneline, self.tystyle, self.arrow, self.semi_sp = "\n", "    ", " ", 1, False, 0, " -> ", ""
             self.trail_nl = True
+            self.attr_gap = False
             return
         self.nl = rng.choice(["\n", "\n", "\r\n"])
         self.ind = rng.choice(["", " ", "    ", "\t", "\t\t "])
@@ -55,6 +56,9 @@ class Layout:
         self.arrow = rng.choice([" -> ", "->", " ->", "-> ", "  ->\t"])
         self.semi_sp = rng.choice(["", "", " "])
         self.trail_nl = rng.below(4) != 0
+        # a blank line between an [opcode(..)] / [flags] line and the definition it belongs to (round 8: a bare newline token that drops the
+        # pending attribute).  Only on definitions without a doc comment: a blank line does detach a pending comment, by design of ReadFile.
+        self.attr_gap = rng.below(3) == 0
 
 
 def comment_lines(c, L, ind):
@@ -70,7 +74,7 @@ def render(items, L):
         k = it["kind"]
         pre = comment_lines(it.get("comment"), L, "")
         if it.get("opcode") is not None:
-            pre += "[opcode(%s)]" % it["opcode_text"] + L.nl
+            pre += "[opcode(%s)]" % it["opcode_text"] + L.nl + (L.nl if L.attr_gap and it.get("comment") is None else "")
         if k == "import":
             out.append('import%s"%s"' % (L.sp, it["path"]) + L.nl)
             continue
@@ -78,7 +82,7 @@ def render(items, L):
             out.append(pre + "const%s%s%s%s%s=%s%s%s;" % (L.sp, it["type"], L.sp, it["name"], L.sp, L.sp, it["text"], L.semi_sp) + L.nl)
             continue
         if k == "enum":
-            hdr = ("[flags]" + L.nl if it["flags"] else "") + "enum" + L.sp + it["name"] + ((L.sp + ":" + L.sp + it["base"]) if it["base_explicit"] else "") + L.sp + "{"
+            hdr = ("[flags]" + L.nl + (L.nl if L.attr_gap and it.get("comment") is None else "") if it["flags"] else "") + "enum" + L.sp + it["name"] + ((L.sp + ":" + L.sp + it["base"]) if it["base_explicit"] else "") + L.sp + "{"
             body = []
             for m in it["members"]:
                 s = comment_lines(m.get("comment"), L, L.ind) if not L.oneline else ""
